@@ -24,6 +24,7 @@ MC_CFG = '''CONSTANTS
   MaxFlight = %(maxflight)d
   Alphabet <- %(alpha)s
   Splits = %(splits)s
+  Aux = %(aux)s
   Dev = %(dev)s
 SPECIFICATION Spec
 INVARIANT C18_JoinOK
@@ -52,15 +53,32 @@ MUC_DEVS = {
     "StaleBlocks": ("Alpha1", "C18_NoStall"),             # pinned code: stale hand-off entry blocks the next join
     "ErrHandoverBlocks": ("AlphaSplit", "C06_ServeNotWedged"),   # sender goroutine offers the error reply without watching the context
     "ErrReplyLeaked": ("AlphaShapeQ", "C06_ServeNotWedged"),     # the reply decoder returns on its error path without closing the reply
+    # code that reads the CONTENT of the muc#user payload where the property speaks of the sender address and the type alone
+    "NewNickStays": ("AlphaPlQ", "C18_JoinedIffIn"),      # unavailable self-presence with status 303 not treated as the departure
+    "UnNeedsRoleNone": ("AlphaPlQ", "C18_JoinedIffIn"),   # ... only an item with role none counts as a departure
+    "SelfNeeds110": ("AlphaPlQ", "C18_NoStall"),          # the self-presence completes a join only when it carries status 110
+    # two channels in one room (nicknames me / me2): a presence of any of the user's own nicknames is taken for the channel's
+    "OwnNickAny": ("Alpha2n", "C18_JoinOK"),
+    # Subject / Invite block while a Leave of the channel is pending
+    "AuxWaitsForLeave": ("Alpha1", "C18_NoStall"),
+    # Join with the Nick option: the address the channel holds is forgotten when the request is made (the room may refuse) /
+    # the address asked for stays registered when the room did not grant it (its presences are somebody else's)
+    "RenickForgetsOld": ("Alpha2n", "C18_JoinedIffIn"),
+    "RenickStale": ("Alpha2n", "C18_JoinedIffIn"),
 }
-C18_DEVS = ["BareLookup", "DepartLost", "NoReRegister", "JoinedBare", "InvitePerMessage", "InviteFirstChild", "DirectFirstChild", "StaleBlocks"]
+DEV_EXTRA = {"OwnNickAny": dict(rooms='{"r1", "r1b"}', maxenv=4), "AuxWaitsForLeave": dict(aux='{"subject"}', maxenv=4),
+             "RenickForgetsOld": dict(aux='{"renick"}'), "RenickStale": dict(aux='{"renick"}')}
+C18_DEVS = ["BareLookup", "DepartLost", "NoReRegister", "JoinedBare", "InvitePerMessage", "InviteFirstChild", "DirectFirstChild", "StaleBlocks",
+            "NewNickStays", "OwnNickAny", "AuxWaitsForLeave", "RenickForgetsOld"]      # quick tier: one per dimension; thorough: all of MUC_DEVS
 
 
 def _mc(ctx, name, workers, **kw):
     kw.setdefault("splits", "FALSE")
+    kw.setdefault("aux", "{}")
     kw.setdefault("dev", "{}")
     kw.setdefault("maxflight", 2)
-    return ctx.model_check("MCMUC", MC_CFG % kw, MUC_PROPS, name=name, timeout=1500, workers=workers)
+    # the runs execute side by side (up to 9 JVMs): a JVM without a limit takes up to a quarter of the machine's memory
+    return ctx.model_check("MCMUC", MC_CFG % kw, MUC_PROPS, name=name, timeout=1500, workers=workers, heap="3g" if ctx.tier == "quick" else "8g")
 
 
 def muc_design_runs(ctx, specs, devs):
@@ -71,9 +89,11 @@ def muc_design_runs(ctx, specs, devs):
     def dev_run(d):
         alpha, inv = MUC_DEVS[d]
         splits = "TRUE" if alpha == "AlphaSplit" else "FALSE"
-        b = ctx.tlc("MCMUC", MC_CFG % dict(rooms='{"r1"}', ids="Ids2" if alpha == "AlphaInv" else "Ids3", maxenv=3 if alpha == "AlphaInv" else 5,
-                                          maxflight=2, alpha=alpha, splits=splits, dev='{"%s"}' % d),
-                    name="MCMUC_dev_" + d, timeout=600, workers=2)
+        kw = dict(rooms='{"r1"}', ids="Ids2" if alpha == "AlphaInv" else "Ids3", maxenv=3 if alpha == "AlphaInv" else 5,
+                  maxflight=2, alpha=alpha, splits=splits, aux="{}", dev='{"%s"}' % d)
+        kw.update(DEV_EXTRA.get(d, {}))
+        b = ctx.tlc("MCMUC", MC_CFG % kw,
+                    name="MCMUC_dev_" + d, timeout=600, workers=2, heap="2g")
         return d, inv, b
 
     with ThreadPoolExecutor(max_workers=len(specs) + 3) as ex:
@@ -95,8 +115,21 @@ def shapes_spec(quick):
     return ("MCMUC_shapes", dict(rooms='{"r1"}', ids="Ids3", maxenv=5 if quick else 6, alpha="AlphaShapeQ" if quick else "AlphaShape", splits="TRUE"))
 
 
+def payload_spec(quick):
+    """design check of the presences' payload content (status codes, item variants; own / other occupant, available / unavailable)"""
+    return ("MCMUC_payload", dict(rooms='{"r1"}', ids="Ids3", maxenv=5 if quick else 6, alpha="AlphaPlQ" if quick else "AlphaPl"))
+
+
 def muc_design_check(ctx, quick, devs=None):
-    specs = [("MCMUC_one_room", dict(rooms='{"r1"}', ids="Ids3", maxenv=6 if quick else 8, alpha="Alpha1")),
+    specs = [payload_spec(quick),
+             # two channels in one room under two nicknames; Subject / Invite calls at any time on a channel the application holds
+             ("MCMUC_two_nicks", dict(rooms='{"r1", "r1b"}', ids="Ids3", maxenv=4 if quick else 5, alpha="Alpha2n")),
+             # Join with the Nick option on a channel that has an occupant address: granted / ignored / refused / cancelled,
+             # presences of the address held and of the address asked for in every order
+             ("MCMUC_renick", dict(rooms='{"r1"}', ids="Ids3", maxenv=5 if quick else 6, alpha="Alpha2n", aux='{"renick"}')),
+             ("MCMUC_aux", dict(rooms='{"r1"}', ids="Ids3" if quick else "Ids4", maxenv=5, alpha="AlphaSplit" if quick else "Alpha1",
+                                 aux='{"subject"}' if quick else '{"subject", "invite"}')),     # (the two kinds are symmetric in the specification)
+             ("MCMUC_one_room", dict(rooms='{"r1"}', ids="Ids3", maxenv=6 if quick else 8, alpha="Alpha1")),
              # every invitation message of AlphaInv: position of the payload among the children, direct / legacy element, 0-2 invites
              ("MCMUC_invites", dict(rooms='{"r1"}', ids="Ids2", maxenv=4 if quick else 5, alpha="AlphaInv")),
              shapes_spec(quick)]
@@ -119,6 +152,14 @@ EMIT_CFG = '''CONSTANTS
   ErShapes = %(shapes)s
   OnlyShaped = %(onlyshaped)s
   WithTail = %(tail)s
+  MaxPl = %(pl)d
+  PlSet <- %(plset)s
+  PlOther = %(plother)s
+  OnlyPl = %(onlypl)s
+  MaxAux = %(aux)d
+  OnlyAux = %(onlyaux)s
+  MaxRenick = %(renick)d
+  OnlyRenick = %(onlyrenick)s
   OutFile = "scripts.ndjson"
 SPECIFICATION Spec
 '''
@@ -139,6 +180,29 @@ def shaped(maxlen, split=0, cuts="{1, 2, 3}"):
     return ('{"r1"}', maxlen, 3, 0, o)
 
 
+def payloads(maxlen, plset="PlAll", other=True, calls=3):
+    """the emission option set "one presence - the occupant's own or another occupant's, available or unavailable, wherever
+    the script has one - carries a muc#user payload out of plset (status codes x item variants), followed by a second
+    exchange that must succeed" for scripts up to maxlen steps (+ the appended exchange)"""
+    return ('{"r1"}', maxlen, calls, 0, {"pl": 1, "plset": plset, "plother": other, "onlypl": True, "tail": True})
+
+
+def two_nicks(maxlen, calls=3):
+    """two channels in ONE room under two nicknames (r1/me and r1/me2): to each the other's presences are another occupant's"""
+    return ('{"r1", "r1b"}', maxlen, calls, 0)
+
+
+def aux_calls(maxlen, calls=3):
+    """one Subject / Invite call on a channel the application holds, while nothing or a Leave is pending on it"""
+    return ('{"r1"}', maxlen, calls, 0, {"aux": 1, "onlyaux": True})
+
+
+def renick(maxlen, calls=3):
+    """one Join with the Nick option on a channel that has an occupant address (it asks for the other nickname), answered with
+    the self-presence of either address / an error / nothing (cancel), followed by presences of the old and of the new address"""
+    return ('{"r1"}', maxlen, calls, 0, {"renick": 1, "onlyrenick": True})
+
+
 def muc_emit(ctx, sets):
     """sets: list of (rooms, maxlen, maxcalls, noise[, options]); options: invfull (the noise is the
     full invitation alphabet), split (number of stanzas delivered in two pieces), cuts (where),
@@ -154,8 +218,12 @@ def muc_emit(ctx, sets):
         return ctx.tlc("EmitMUC", EMIT_CFG % dict(rooms=rooms, maxlen=maxlen, maxcalls=maxcalls, noise=noise, invfull="TRUE" if opt.get("invfull") else "FALSE",
                                                   split=opt.get("split", 0), cuts=opt.get("cuts", "{1, 3}"),
                                                   shape=opt.get("shape", 0), shapes="{%s}" % ", ".join('"%s"' % x for x in opt.get("shapes", [])),
-                                                  onlyshaped="TRUE" if opt.get("onlyshaped") else "FALSE", tail="TRUE" if opt.get("tail") else "FALSE"),
-                       workers=1, timeout=900, name="EmitMUC_%d" % i)
+                                                  onlyshaped="TRUE" if opt.get("onlyshaped") else "FALSE", tail="TRUE" if opt.get("tail") else "FALSE",
+                                                  pl=opt.get("pl", 0), plset=opt.get("plset", "PlFew"), plother="TRUE" if opt.get("plother") else "FALSE",
+                                                  onlypl="TRUE" if opt.get("onlypl") else "FALSE",
+                                                  aux=opt.get("aux", 0), onlyaux="TRUE" if opt.get("onlyaux") else "FALSE",
+                                                  renick=opt.get("renick", 0), onlyrenick="TRUE" if opt.get("onlyrenick") else "FALSE"),
+                       workers=1, timeout=900, name="EmitMUC_%d" % i, heap="3g")
 
     with ThreadPoolExecutor(max_workers=4) as ex:
         results = list(ex.map(lambda a: emit(a[0], *a[1]), enumerate(sets)))
@@ -175,19 +243,28 @@ def muc_emit(ctx, sets):
         ctx.log("TLC emitted %d new scripts (rooms %s, length <= %d, calls <= %d, noise <= %d%s%s%s) in %.1fs" % (
             n, rooms, maxlen, maxcalls, noise, " from the full invitation alphabet" if opt.get("invfull") else "",
             ", <= %d stanza delivered in two pieces" % opt["split"] if opt.get("split") else "",
-            ", one error reply of %d other shapes, each also followed by a second exchange" % len(opt["shapes"]) if opt.get("shape") else "", r.wall))
+            (", one error reply of %d other shapes, each also followed by a second exchange" % len(opt["shapes"]) if opt.get("shape") else "")
+            + (", %d presence (own%s) with a muc#user payload out of %s%s" % (opt["pl"], " or another occupant's" if opt.get("plother") else "", opt.get("plset", "PlFew"),
+                                                                           ", each also followed by a second exchange" if opt.get("tail") else "") if opt.get("pl") else "")
+            + (", %d Subject / Invite call while nothing or a Leave is pending" % opt["aux"] if opt.get("aux") else "")
+            + (", %d join with the Nick option on a channel that has an occupant address, then also presences of the address asked for" % opt["renick"] if opt.get("renick") else ""), r.wall))
         os.remove(f)
     return out
 
 
-def S(ty, room="r1", nick="me", call="-", n=0, lay=None, pw=False, cut=0, shape=None):
+def S(ty, room="r1", nick="me", call="-", n=0, lay=None, pw=False, cut=0, shape=None, codes=None, item=None):
     """the room sends a stanza; cut != 0: only its first piece for now (1 = up to the end of the start
-    tag, 2 = half of the bytes, 3 = all but the end tag), the remainder with the next R()"""
+    tag, 2 = half of the bytes, 3 = all but the end tag), the remainder with the next R(); codes / item:
+    the status codes and the item variant of a presence's muc#user payload (default: the plain one)"""
     if lay is None:
         lay = ["u"] if ty == "inv" else []
-    return {"op": "send", "room": "-", "call": "-", "cut": cut,
-            "st": {"ty": ty, "room": room, "nick": nick if ty != "inv" else "-", "call": call, "n": n, "lay": lay, "pw": pw,
-                   "shape": (shape or "wf") if ty == "er" else "-"}}
+    st = {"ty": ty, "room": room, "nick": nick if ty != "inv" else "-", "call": call, "n": n, "lay": lay, "pw": pw,
+          "shape": (shape or "wf") if ty == "er" else "-"}
+    if codes is not None:
+        st["codes"] = list(codes)
+    if item is not None:
+        st["item"] = item
+    return {"op": "send", "room": "-", "call": "-", "cut": cut, "st": st}
 
 
 def R():
@@ -213,6 +290,14 @@ def muc_explore_scenarios(tier):
         [C("join"), S("av"), C("leave"), S("er", call="c2")],
         [C("join", "r1"), C("join", "r2"), S("av", "r2"), S("av", "r1")],
         [C("join"), S("av"), S("un"), C("rejoin"), S("av"), C("leave"), S("un")],   # kicked, back, leave
+        # Subject / Invite while the Leave is pending (interleaved with its goroutines); the room answers with a payload that
+        # announces a new nickname
+        [C("join"), S("av"), C("leave"), C("subject"), S("un")],
+        [C("join"), S("av"), C("leave"), S("un", codes=[303, 110], item="nick"), C("invite")],
+        # two channels in one room under two nicknames, admitted in the other order
+        [C("join", "r1"), C("join", "r1b"), S("av", nick="me2"), S("av"), C("leave", "r1b"), S("un", nick="me2")],
+        # join with the Nick option, refused by the room; then the occupant (still under its old nickname) is removed
+        [C("join"), S("av"), C("renick"), S("er", call="c2"), S("un")],
     ] + muc_leave_cancel_scenarios(tier) + muc_shape_scenarios(tier)
     if tier == "thorough":
         s += [
@@ -221,7 +306,8 @@ def muc_explore_scenarios(tier):
             [C("join"), X("c1"), C("rejoin"), S("av"), S("av")],
             [C("join"), S("av"), C("leave"), X("c2"), S("un"), C("rejoin"), S("av"), C("leave"), S("un")],
         ]
-    return [{"mode": "explore", "steps": x} for x in s]
+    # (the window "Leave parked before its select, the answer processed, then the other call" lies deep in the depth-first order)
+    return [dict({"mode": "explore", "steps": x}, **({"maxruns": 200} if tier == "quick" and any(st["op"] == "invite" for st in x) else {})) for x in s]
 
 
 def muc_leave_cancel_scenarios(tier):
@@ -331,13 +417,14 @@ def merge_traces(ctx, files, name):
 
 
 TR_CFG = '''CONSTANTS
-  Rooms = {"r1", "r2"}
+  Rooms = {"r1", "r2", "r1b"}
   Foreign = "rx"
   CallIds <- Ids6
   MaxEnv = 0
   MaxFlight = 0
   Alphabet = {}
   Splits = FALSE
+  Aux = {}
   Dev = {}
 SPECIFICATION TSpec
 CONSTRAINT HW
@@ -386,14 +473,23 @@ def muc_explain(tr, hw):
     k = ev.get("ev")
     pend = [c for c in calls if c not in done]
     if k == "obs":
-        return "C18_JoinedIffIn", "Channel.Joined() = %s (Me %s/%s) disagrees with the membership the room's presence implies" % (ev.get("j"), ev.get("addr"), ev.get("me"))
+        # the last presence of the occupant address that has been processed (for the text only)
+        sent = [e for e in tr if e["_line"] < hw and e.get("ev") == "send"]
+        nh = len([e for e in tr if e["_line"] < hw and e.get("ev") == "handled"])
+        own = [e["st"] for e in sent[:nh] if e["st"]["ty"] in ("av", "un") and e["st"]["room"] == room_of(ev.get("r")) and e["st"]["nick"] == nick_of(ev.get("r"))]
+        last = ""
+        if own:
+            last = "; the last presence of the occupant address %s/%s that was processed: %s%s" % (
+                room_of(ev.get("r")), nick_of(ev.get("r")), "unavailable" if own[-1]["ty"] == "un" else "available", payload_text(own[-1]) or " (plain payload)")
+        return "C18_JoinedIffIn", "Channel.Joined() = %s (Me %s/%s) disagrees with the membership the room's presence implies%s" % (ev.get("j"), ev.get("addr"), ev.get("me"), last)
     if k == "ret":
         c = ev["c"]
         if c in done:
             return "C06_OneOutcome", "call %s returned twice" % c
         kind = calls.get(c, ("?", "?"))[0]
         if ev["o"] == "ok":
-            return ("C18_JoinOK" if kind != "leave" else "C18_LeaveReturns"), "%s %s returned success although the room never sent the %s self-presence for its occupant address while it was pending" % (kind, c, "available" if kind != "leave" else "unavailable")
+            return ("C18_JoinOK" if kind != "leave" else "C18_LeaveReturns"), "%s %s returned success although the room never sent the %s self-presence for its occupant address%s while it was pending" % (
+                kind, c, "available" if kind != "leave" else "unavailable", " (the one it holds or the one it asked for)" if kind == "renick" else "")
         if ev["o"] == "err":
             return "C18_JoinErr", "%s %s returned stanza error %s which the room did not send for that request" % (kind, c, ev.get("cond"))
         if ev["o"] == "ctx":
@@ -404,7 +500,7 @@ def muc_explain(tr, hw):
     if k == "quiet":
         sent = [e for e in tr if e["_line"] < hw and e.get("ev") == "send"]
         nh = len([e for e in tr if e["_line"] < hw and e.get("ev") == "handled"])
-        callstall = [c for c in pend if c in cancelled or c not in wire]
+        callstall = [c for c in pend if c in cancelled or c not in wire or calls[c][0] in AUX]
         if nh < len(sent) and not callstall:
             # a whole stanza is unprocessed and nothing can move: the serve loop is stopped
             prev = sent[nh]["st"]
@@ -416,14 +512,26 @@ def muc_explain(tr, hw):
         parts = []
         for c in pend:
             kind = calls[c][0]
-            if c in cancelled:
+            if kind in AUX:
+                parts.append("%s call %s on the channel blocked although it waits for nothing the room sends (pending on the channel: %s)" % (
+                    kind, c, ", ".join("%s %s" % (calls[d][0], d) for d in pend if d != c and calls[d][1] == calls[c][1]) or "nothing"))
+            elif c in cancelled:
                 parts.append("%s %s still blocked although its context was cancelled" % (kind, c))
             elif c not in wire:
                 parts.append("%s %s blocked with a live context and its request never sent" % (kind, c))
             else:
-                parts.append("%s %s still blocked although the room's answer (sent after the request was on the wire) has been processed" % (kind, c))
+                wl = min([e["_line"] for e in tr if e.get("ev") == "wire" and e.get("c") == c] + [hw])
+                ans = [e["st"] for e in tr if wl < e["_line"] < hw and e.get("ev") == "send" and e["st"]["room"] == room_of(calls[c][1])
+                       and (e["st"]["ty"] == "er" and e["st"]["call"] == c or e["st"]["nick"] == nick_of(calls[c][1]) and e["st"]["ty"] == ("un" if kind == "leave" else "av"))]
+                if ans:
+                    parts.append("%s %s still blocked although the room's answer (sent after the request was on the wire: %s%s) has been processed" % (
+                        kind, c, {"un": "unavailable presence of the occupant address", "av": "self-presence", "er": "error reply"}[ans[-1]["ty"]], payload_text(ans[-1])))
+                else:
+                    parts.append("%s %s waiting for the room's answer" % (kind, c))
         live = [c for c in pend if c not in cancelled]
-        if any(c not in wire for c in live):
+        if any(calls[c][0] in AUX for c in pend):
+            clause = "C18_AuxReturns"
+        elif any(c not in wire for c in live):
             clause = "C18_RequestSent"
         elif live:
             clause = "C18_LeaveReturns" if any(calls[c][0] == "leave" for c in live) else "C18_JoinCompletes"
@@ -455,10 +563,22 @@ def muc_explain(tr, hw):
     return "C18", "event %s not allowed here" % json.dumps(ev)
 
 
+AUX = ("subject", "invite")
+
+
+def room_of(ch):
+    """a channel id names an occupant address: r1b is a second channel in room r1 under the nickname me2"""
+    return "r1" if ch == "r1b" else ch
+
+
+def nick_of(ch):
+    return "me2" if ch == "r1b" else "me"
+
+
 C18_ONLY = ("C18_JoinedIffIn", "C18_InviteExactlyOnce", "C18_DirectInviteExactlyOnce", "C18_ForeignIgnored")
 
 
-C06_LABEL = {"C18_RequestSent": "C06_CallReturns (request never sent)", "C18_LeaveReturns": "C06_CallReturns (Leave)",
+C06_LABEL = {"C18_RequestSent": "C06_CallReturns (request never sent)", "C18_AuxReturns": "C06_CallReturns (Subject / Invite)", "C18_LeaveReturns": "C06_CallReturns (Leave)",
              "C18_JoinCompletes": "C06_CallReturns (Join)", "C18_JoinOK": "C06_OwnReplyOnly (Join)", "C18_JoinErr": "C06_OwnReplyOnly (error)",
              "C18_CtxErr": "C06_OutcomeConsistent"}
 
@@ -488,6 +608,19 @@ def muc_report(ctx, tr_path, meta, rej, only=None, skip=(), limit=25, relabel=No
     return {k: len(v) for k, v in per.items()}
 
 
+def def_codes(st):
+    return [110, 210] if st["ty"] == "av" and st["nick"] == "ot" else [110] if st["ty"] in ("av", "un") else []
+
+
+def payload_text(st):
+    """the content of a presence's muc#user payload when it is not the plain one"""
+    if st.get("ty") not in ("av", "un") or st.get("codes") is None:
+        return ""
+    if st["codes"] == def_codes(st) and st.get("item", "-") in ("-", ""):
+        return ""
+    return " status=[%s]%s" % (",".join(str(c) for c in st["codes"]), " item=" + st["item"] if st.get("item", "-") not in ("-", "") else "")
+
+
 def script_text(sc):
     out = []
     for s in sc["steps"]:
@@ -496,8 +629,8 @@ def script_text(sc):
             inv = ""
             if st["ty"] == "inv":
                 inv = " %s n=%d%s" % ("".join(st.get("lay") or ["u"]), st["n"], " pw" if st.get("pw") else "")
-            out.append("%s(%s%s%s%s%s)" % (st["ty"], st["room"], "/" + st["nick"] if st["nick"] != "-" else "", (" " + st["call"]) if st["call"] != "-" else inv,
-                                           " " + st["shape"] if st.get("shape", "-") not in ("-", "wf") else "", " cut=%d" % s["cut"] if s.get("cut") else ""))
+            out.append("%s(%s%s%s%s%s%s)" % (st["ty"], st["room"], "/" + st["nick"] if st["nick"] != "-" else "", (" " + st["call"]) if st["call"] != "-" else inv,
+                                             " " + st["shape"] if st.get("shape", "-") not in ("-", "wf") else "", payload_text(st), " cut=%d" % s["cut"] if s.get("cut") else ""))
         elif s["op"] == "rest":
             out.append("rest")
         elif s["op"] == "cancel":
@@ -588,6 +721,24 @@ def muc_selftest(ctx, trace):
         if h:
             muts.append(("the malformed error reply is never released (no stanza processed from there on)",
                          [dict(e) for k, e in enumerate(sb) if not (k >= h[0] and e.get("ev") == "handled")]))
+    # payload content: a trace in which the unavailable presence of the occupant address announces a new nickname (303)
+    # and Joined() is then sampled as false (when the run has one)
+    def newnick(tr):
+        sd = [k for k, e in enumerate(tr) if e.get("ev") == "send" and e["st"]["ty"] == "un" and e["st"]["nick"] == "me" and 303 in e["st"].get("codes", [])]
+        return (len(sd) == 1 and any(e.get("ev") == "obs" and e.get("j") is False for e in tr[sd[0]:])
+                and any(e.get("ev") == "obs" and e.get("j") for e in tr[:sd[0]]) and not any(e.get("ev") in ("stuck", "panic", "rest") for e in tr))
+    nn = [t for t, tr in trs.items() if newnick(tr)]
+    if nn:
+        nb_ = [{k: v for k, v in e.items() if k != "_line"} for e in trs[nn[0]]]
+        bases.append(("unchanged (unavailable presence with status 303)", [dict(e) for e in nb_]))
+        j = [k for k, e in enumerate(nb_) if e.get("ev") == "send" and e["st"]["ty"] == "un" and 303 in e["st"].get("codes", [])][0]
+        o = [k for k, e in enumerate(nb_) if k > j and e.get("ev") == "obs" and e.get("j") is False][0]
+        m = [dict(e) for e in nb_]
+        m[o] = dict(m[o], j=True)
+        muts.append(("still reported as joined after the occupant's unavailable presence (status 303) was processed", m))
+        m = [dict(e) for e in nb_]
+        m[j] = dict(m[j], st=dict(m[j]["st"], codes=[110], item="-"))
+        bases.append(("unchanged but for the content of the payload (303 / nick -> plain)", m))
     p = ctx.path("muc-selftest.ndjson")
     line = 0
     with open(p, "w") as f:
